@@ -341,9 +341,11 @@ EXCLUDED_NODE_CLASSES = ("ProgramNode", "BlankNode", "CommentNode", "InjectedNod
 
 def check_completed_nodes(nodes, rl) -> list[tuple[str, str]]:
     """last clause: every completed method instruction other than Stop / blank / comment lines has a Completed item
-    (counted per run-log name, so that repeated lines need repeated items)."""
+    (counted per run-log name, so that repeated lines need repeated items).  Instructions that are completed AND
+    cancelled get their own failure key (a cancelled instruction that ran anyway)."""
     from collections import Counter
     want: Counter = Counter()
+    want_cancelled: Counter = Counter()
     for n in nodes:
         cls = type(n).__name__
         if cls in EXCLUDED_NODE_CLASSES or not n.completed:
@@ -351,12 +353,17 @@ def check_completed_nodes(nodes, rl) -> list[tuple[str, str]]:
         nm = n.runlog_name
         if nm is None or nm == "Stop":
             continue
-        want[nm] += 1
+        (want_cancelled if n.cancelled else want)[nm] += 1
     have: Counter = Counter(it.name for it in rl.items if str(it.state) == "completed")
     for nm, k in sorted(want.items()):
         if have[nm] < k:
             return [("completed-instruction-without-completed-item",
                      f"{k} completed instruction(s) {nm!r}, {have[nm]} completed item(s)")]
+    for nm, k in sorted(want_cancelled.items()):
+        if have[nm] < k + want[nm]:
+            return [("cancelled-instruction-completed-without-completed-item",
+                     f"{k} instruction(s) {nm!r} cancelled and completed, {have[nm]} completed item(s), "
+                     f"{want[nm]} other completed instruction(s) of that name")]
     return []
 
 
@@ -411,13 +418,15 @@ def run_case(case: dict, guard: bool = True, with_ops: bool = True) -> dict:
                 kind = op[0]
                 if kind in ("cancel", "force"):
                     items = rl.items if rl is not None else []
-                    if op[1] == "offered":
+                    if op[1].startswith("name:"):
+                        items = [it for it in items if it.name == op[1][5:]]
+                    elif op[1] == "offered":
                         items = [it for it in items if (it.cancellable if kind == "cancel" else it.forcible)]
                     elif op[1] == "concluded":
                         items = [it for it in items if str(it.state) in CONCLUSIVE]
                     if not items:
                         continue
-                    it = items[int(op[2] * len(items))]
+                    it = items[min(int(op[2] * len(items)), len(items) - 1)]
                     late = str(it.state) in CONCLUSIVE
                     res = run.cancel(it.id) if kind == "cancel" else run.force(it.id)
                     if res == "ok":
